@@ -131,6 +131,9 @@ def sym(ctx, cfg):
     zf = [z3.Real("f%d" % i) for i in range(n)]
     fdr = z3.Real("train_fdr")
     ctx.assume(z3.And(fdr > 0, fdr <= 1))
+    if cfg.get("labels"):
+        for z, v in zip(zt, cfg["labels"]):
+            ctx.assume(z == z3.BoolVal(bool(v)))
     shuffle = bool(SBool(z3.Bool("shuffle"))) if cfg.get("shuffle") is None else cfg["shuffle"]
     df = sympd.DataFrame({"spec": list(range(n)), "Label": [SBool(z) for z in zt], "pep": ["PEP%d" % i for i in range(n)],
                           "rowid": list(range(n)), "f": [SNum(z) for z in zf]})
@@ -157,6 +160,59 @@ def sym(ctx, cfg):
                                "rowid": list(range(n))})
         psms2 = D.LinearPsmDataset(df2, target_column="Label", spectrum_columns="spec", peptide_column="pep", feature_columns=["f", "rowid"], copy_data=True)
         pred = model.predict(psms2)
+        pred2 = None
+        if cfg.get("roundtrip"):
+            # save / load_model: pickle is modelled by copy.deepcopy, which drives the same
+            # __reduce_ex__ / __getstate__ / __setstate__ protocol; the file is an in-memory object
+            import copy
+
+            class _VF:
+                def __init__(self):
+                    self.obj = None
+
+                def __enter__(self):
+                    return self
+
+                def __exit__(self, *a):
+                    return False
+            files = {}
+
+            def vopen(path, mode="r", *a, **k):
+                if "w" in mode:
+                    files[str(path)] = _VF()
+                if str(path) not in files:
+                    raise FileNotFoundError(str(path))
+                return files[str(path)]
+
+            class _Pickle:
+                @staticmethod
+                def dump(obj, f, *a, **k):
+                    f.obj = copy.deepcopy(obj)
+
+                @staticmethod
+                def load(f, *a, **k):
+                    return copy.deepcopy(f.obj)
+
+            class _PdText:
+                @staticmethod
+                def read_csv(*a, **k):
+                    raise UnicodeDecodeError("utf-8", b"\x80", 0, 1, "invalid start byte")  # a pickle is not text
+            saved = (M.__dict__.get("open"), M.pickle, M.pd)
+            M.open, M.pickle, M.pd = vopen, _Pickle, _PdText
+            try:
+                from pathlib import Path
+                model.save(Path("/vfs/model.pkl"))
+                loaded = M.load_model(Path("/vfs/model.pkl"))
+            finally:
+                M.pickle, M.pd = saved[1], saved[2]
+                if saved[0] is None:
+                    M.__dict__.pop("open", None)
+                else:
+                    M.open = saved[0]
+            df3 = sympd.DataFrame({"f": [SNum(z) for z in zf], "spec": list(range(n)), "Label": [SBool(z) for z in zt], "pep": ["PEP%d" % i for i in range(n)],
+                                   "rowid": list(range(n))})
+            psms3 = D.LinearPsmDataset(df3, target_column="Label", spectrum_columns="spec", peptide_column="pep", feature_columns=["f", "rowid"], copy_data=True)
+            pred2 = loaded.predict(psms3)
     except Unsupported:
         raise
     except (ValueError, RuntimeError) as ex:
@@ -173,6 +229,11 @@ def sym(ctx, cfg):
     finally:
         Q.__dict__["tdc"] = real_tdc
     props = _fit_props(_REC[7], n, zt, zf, fdr, cfg, iters, pred, True)
+    if cfg.get("roundtrip"):
+        props.append(("reloaded_model_predicts_for_every_psm", z3.BoolVal(pred2 is not None and len(pred2) == len(pred))))
+        if pred2 is not None and len(pred2) == len(pred):
+            for i, (a, b) in enumerate(zip(pred.items, pred2.items)):
+                props.append(("reloaded_model_predicts_identically_row%d" % i, core._z(a) == core._z(b)))
     return PathOutcome(props, inputs, None)
 
 
@@ -255,6 +316,15 @@ def harnesses(tier):
     hs.append(Harness("fit[n=2,iters=2,direction=f,scaler with per-feature parameters]", dict(n=2, iters=2, direction="f", proba=0, scaler=True), sym, real="fit", functions=funcs,
                       bounds=dict(N=2, max_iter=2), stubs=stubs + ["scaler -> per-column affine map fitted in training column order (stands for StandardScaler)"],
                       assumptions=["0 < train_fdr <= 1"], sample_rate=0.6))
+    for nn, sc in ([(2, True)] if tier == "quick" else [(3, True), (3, False)]):
+        hs.append(Harness("fit[n=%d,iters=2,direction=f,%ssave and load_model]" % (nn, "scaler with per-feature parameters," if sc else ""), dict(n=nn, iters=2, direction="f", proba=0, scaler=sc, roundtrip=True, shuffle=False), sym, real="fit", functions=funcs + [M.Model.save, M.load_model],
+                          bounds=dict(N=nn, max_iter=2), stubs=stubs + ["pickle -> copy.deepcopy (same __reduce_ex__/__getstate__/__setstate__ protocol) into an in-memory file; pandas.read_csv on a pickle -> UnicodeDecodeError"],
+                          assumptions=["0 < train_fdr <= 1", "the byte-level pickle codec is trusted (exercised for real in the replay)"], sample_rate=0.6))
+    if tier == "quick":
+        # three targets and a decoy: the smallest table on which two label sets can accept the same NUMBER of
+        # targets but different targets (with N = 3 every q-value is 1/2 or 1)
+        hs.append(Harness("fit[n=4,iters=2,direction=f,labels TTTD,no shuffle]", dict(n=4, iters=2, direction="f", proba=0, labels=[1, 1, 1, 0], shuffle=False), sym, real="fit", functions=funcs,
+                          bounds=dict(N=4, max_iter=2), stubs=stubs, assumptions=["0 < train_fdr <= 1", "labels fixed to three targets and one decoy, shuffling off (the general N = 4 case is in the thorough tier)"], sample_rate=0.3))
     cfgs = [(2, 2, None, 0), (3, 2, None, 0), (3, 2, "f", 0), (3, 2, "f", 2), (2, 2, None, 1)] if tier == "quick" else \
         [(2, 3, None, 0), (3, 3, None, 0), (3, 3, "f", 0), (4, 2, None, 0), (4, 2, "f", 0), (3, 2, None, 2), (3, 2, "f", 1)]
     for n, iters, direction, proba in cfgs:
@@ -267,6 +337,47 @@ def harnesses(tier):
 
 
 # ------------------------------------------------------------------ concrete --
+try:
+    from sklearn.base import BaseEstimator as _SkBase
+except Exception:  # pragma: no cover
+    _SkBase = object
+
+
+class PickRec(_SkBase):
+    """module-level (hence picklable) twin of the recording estimator of real_fit"""
+    STATE = {}
+
+    def __init__(self, tag=0):
+        self.tag = tag
+
+    def fit(self, X, y):
+        import numpy as np
+        PickRec.STATE["log"]["fits"].append((np.array(X, dtype=float).copy(), np.array(y, dtype=float).copy()))
+        return self
+
+    def decision_function(self, X):
+        import numpy as np
+        st = PickRec.STATE
+        k = len(st["log"]["fits"])
+        st["log"]["scored"].append(np.array(X, dtype=float).copy())
+        return np.array([st["table"].get((k, st["rid"](r[0])), 0.0) for r in np.asarray(X)], dtype=float)
+
+
+class PickScaler(_SkBase):
+    def fit(self, X, y=None):
+        import numpy as np
+        self.params_ = [SCALE[c] for c in FEATS][:np.asarray(X).shape[1]]
+        return self
+
+    def transform(self, X):
+        import numpy as np
+        X = np.asarray(X, dtype=float)
+        return np.column_stack([a * X[:, j] + b for j, (a, b) in enumerate(self.params_)])
+
+    def fit_transform(self, X, y=None):
+        return self.fit(X).transform(X)
+
+
 def real_fit(cfg, inp):
     import numpy as np
     import pandas as pd
@@ -342,13 +453,31 @@ def real_fit(cfg, inp):
 
                 def fit_transform(self, X, y=None):
                     return self.fit(X).transform(X)
-            scaler = RealTagScaler()
-        model = Model(RecProba(7, cfg["proba"]) if cfg.get("proba") else Rec(7), scaler=scaler, train_fdr=fdr, max_iter=cfg["iters"], direction=cfg.get("direction"), shuffle=bool(inp["shuffle"]),
+            scaler = PickScaler() if cfg.get("roundtrip") else RealTagScaler()
+        PickRec.STATE = dict(log=log, table=table, rid=rid)
+        model = Model(RecProba(7, cfg["proba"]) if cfg.get("proba") else (PickRec(7) if cfg.get("roundtrip") else Rec(7)), scaler=scaler, train_fdr=fdr, max_iter=cfg["iters"], direction=cfg.get("direction"), shuffle=bool(inp["shuffle"]),
                       rng=Scripted(inp.get("perms") or []), override=True)
         model.fit(psms)
         df2 = df[["f", "spec", "Label", "pep", "rowid"]]
         psms2 = LinearPsmDataset(df2, target_column="Label", spectrum_columns="spec", peptide_column="pep", feature_columns=["f", "rowid"], copy_data=True)
         pred = model.predict(psms2)
+        rt_violation = None
+        if cfg.get("roundtrip"):
+            import tempfile
+            from pathlib import Path
+            model.rng = 1  # the scripted generator of the replay is a local class; a model is saved with an ordinary one
+            with tempfile.TemporaryDirectory(prefix="verif_c12_") as d:
+                try:
+                    model.save(Path(d) / "model.pkl")
+                    loaded = mokapot.load_model(Path(d) / "model.pkl")
+                    psms3 = LinearPsmDataset(df2, target_column="Label", spectrum_columns="spec", peptide_column="pep", feature_columns=["f", "rowid"], copy_data=True)
+                    pred2 = loaded.predict(psms3)
+                    if len(pred2) != len(pred) or not np.allclose(np.asarray(pred2, dtype=float), np.asarray(pred, dtype=float), atol=1e-12):
+                        rt_violation = "the model saved and loaded again predicts %s, the model itself predicted %s" % (np.asarray(pred2).tolist(), np.asarray(pred).tolist())
+                    elif len(log["scored"]) >= 2 and (log["scored"][-1].shape != log["scored"][-2].shape or not np.allclose(log["scored"][-1], log["scored"][-2], atol=1e-12)):
+                        rt_violation = "the estimator of the model saved and loaded again is handed %s, the estimator of the model itself was handed %s for the same PSMs" % (log["scored"][-1].tolist(), log["scored"][-2].tolist())
+                except Exception as ex:
+                    rt_violation = "save / load_model / predict of the re-loaded model raised %r" % (ex,)
     except (ValueError, RuntimeError) as ex:
         msg = str(ex)
         if ("No target PSMs" in msg or "No decoy PSMs" in msg or "No PSMs accepted at train_fdr" in msg or "No PSMs found below the 'eval_fdr'" in msg
@@ -360,7 +489,9 @@ def real_fit(cfg, inp):
     v = _check_fits(log, n, tg, f, fdr, table, rid, a1, b1)
     if v:
         return dict(violation=v)
-    Xp = log["scored"][-1]
+    if rt_violation:
+        return dict(violation=rt_violation)
+    Xp = log["scored"][-2 if cfg.get("roundtrip") and len(log["scored"]) >= 2 else -1]
     for j in range(n):
         if rid(Xp[j][0]) != j or abs(float(Xp[j][1]) - (a1 * f[j] + b1)) > 1e-9:
             return dict(violation="predict: the estimator did not receive PSM %d's features selected by name and scaled with their own parameters: got %s, expected %s" % (j, Xp[j].tolist(), [a0 * j + b0, a1 * f[j] + b1]))
